@@ -206,6 +206,17 @@ impl Property for C18 {
         for s in enumerate(ENC_REPS, maxlen) {
             v.push(name_case("encoding", &s));
         }
+        // part 3: every scalar value at the first and at an inner position of a name, in every usage
+        for usage in &USAGES[..4] {
+            for pos in ["first", "inner"] {
+                let mut lo = 0u32;
+                while lo <= 0x10FFFF {
+                    let hi = (lo + 0x1FFF).min(0x10FFFF);
+                    v.push(json!({"kind": "sweep", "usage": usage, "pos": pos, "from": lo, "to": hi, "_nontrivial": true, "_labels": ["sweep"]}));
+                    lo = hi + 1;
+                }
+            }
+        }
         v.extend(crate::engine::regress_cases("C18"));
         v
     }
@@ -251,6 +262,51 @@ impl Property for C18 {
                     )
                 }
             }
+            "sweep" => {
+                let usage = case["usage"].as_str().unwrap_or("");
+                let pos = case["pos"].as_str().unwrap_or("");
+                let (lo, hi) = (case["from"].as_u64().unwrap_or(0) as u32, case["to"].as_u64().unwrap_or(0) as u32);
+                let mut bad: std::collections::BTreeMap<String, Vec<u32>> = std::collections::BTreeMap::new();
+                for cp in lo..=hi {
+                    let c = match char::from_u32(cp) {
+                        Some(c) => c,
+                        None => continue,
+                    };
+                    if matches!(c, ' ' | '\t' | '\n' | '\r') {
+                        continue; // S separates tokens: "a b" is not one candidate name
+                    }
+                    let s: String = if pos == "first" { format!("{}a", c) } else { format!("a{}b", c) };
+                    let exp = match expected(usage, &s) {
+                        Some(e) => e,
+                        None => continue,
+                    };
+                    let got = accepted(&document_for(usage, &s));
+                    if got != exp {
+                        let pattern: String = s.chars().map(class_of).collect();
+                        let reason = if !got {
+                            format!("valid-{}", pattern)
+                        } else if pattern.contains('X') {
+                            "non-name-char".to_string()
+                        } else if pattern.starts_with('C') || pattern.contains(":C") {
+                            "first-char-namechar-only".to_string()
+                        } else {
+                            "colon-structure".to_string()
+                        };
+                        bad.entry(format!("c18.name.{}.{}.{}", usage, if got { "accepted" } else { "rejected" }, reason)).or_default().push(cp);
+                    }
+                }
+                for (k, cps) in bad {
+                    if crate::engine::skip_known("C18", &k) {
+                        if !obs.known_hits.contains(&k) {
+                            obs.known_hits.push(k);
+                        }
+                        continue;
+                    }
+                    let shown: Vec<String> = cps.iter().take(8).map(|c| format!("U+{:04X}", c)).collect();
+                    return Verdict::fail(k, format!("{} name with the code point at the {} position: {} code point(s) in U+{:04X}..U+{:04X} decided wrongly, e.g. {}", usage, pos, cps.len(), lo, hi, shown.join(" ")));
+                }
+                Verdict::Pass
+            }
             _ => Verdict::Discard("unknown case kind".into()),
         }
     }
@@ -264,7 +320,7 @@ impl Property for C18 {
         m.insert("exhaustive".into(), json!(false));
         m.insert(
             "exhaustive_part".into(),
-            json!("the five predicate tables are enumerated over all 1,112,064 Unicode scalar values (surrogates are not representable as char); the name-syntax part is enumerated up to length 2/3 and sampled beyond"),
+            json!("the five predicate tables are enumerated over all 1,112,064 Unicode scalar values (surrogates are not representable as char); names of the forms <c>a and a<c>b are decided for every scalar value <c> in every usage; other names are enumerated up to length 2/3 over class representatives and sampled beyond"),
         );
         m
     }
